@@ -61,7 +61,56 @@ def settable_family(ctx, rng):
     return items
 
 
+def edges_across_namespaces(ctx):
+    """default_edges between a native and an imported object type that share their numeric id (and, in a second
+    variant, their name): the edge's declared object type and the type of the referenced promise must be the SAME
+    type, schema qualifier included.  Oracle: the property statement (a default edge refers to a promise of the
+    edge's own object type fulfilled by an ancestor)."""
+    import os, json, copy, itertools, impl
+    f = os.path.join(ctx.repo_copy, "schemas", "test", "basic_import.json")
+    if not os.path.exists(f):
+        return 0
+    imp = json.load(open(f))
+    it = imp["object_types"][0]
+    imported_attr = it["attributes"][0]["name"]
+    fn = "test/basic_import"
+    docs = []
+    for same_name in (False, True):
+        native_t = {"id": it["id"], "name": it["name"] if same_name else "Target", "attributes": [{"name": "label", "type": "STRING"}]}
+        spell = {"native": ["object_type:%d" % it["id"], "object_type:{%s}" % native_t["name"]],
+                 "imported": ["schema:{%s}.object_type:%d" % (fn, it["id"]), "schema:{%s}.object_type:{%s}" % (fn, it["name"])]}
+        for edge_ns, prom_ns in itertools.product(("native", "imported"), repeat=2):
+            for es, ps in itertools.product(spell[edge_ns], spell[prom_ns]):
+                holder = {"id": 5, "name": "Holder", "attributes": [{"name": "label", "type": "STRING"}, {"name": "link", "type": "EDGE", "object_type": es}]}
+                act = lambda i, **kw: dict({"id": i, "name": "act %d" % i, "object_promise": "object_promise:%d" % i, "description": "d", "party": "party:{P}",
+                                            "operation": {"include": ["label"]}}, **kw)
+                first = act(0)
+                if prom_ns == "imported":
+                    first["operation"] = {"include": [imported_attr]}
+                d = {"standard": "c07", "terms": [], "imports": [{"file_name": fn}], "parties": [{"id": 0, "name": "P"}], "pipelines": [],
+                     "object_types": [native_t, holder],
+                     "object_promises": [{"id": 0, "name": "target", "object_type": ps}, {"id": 1, "name": "holder", "object_type": "object_type:{Holder}"}],
+                     "actions": [first, act(1, depends_on="checkpoint:0", operation={"include": ["label"], "default_edges": {"link": "object_promise:0"}})],
+                     "checkpoints": [{"id": 0, "alias": "first done", "description": "d", "dependencies": [
+                         {"compare": {"left": {"ref": "action:0.object_promise"}, "operator": "DOES_NOT_EQUAL", "right": {"value": None}}}]}],
+                     "thread_groups": []}
+                docs.append(("edge of %s type (%s) -> promise of %s type (%s)%s" % (edge_ns, es, prom_ns, ps, ", types share the name" if same_name else ""), d, edge_ns == prom_ns))
+    pool = impl.Pool(ctx, 4)
+    res = pool.validate_many([d for _, d, _ in docs])
+    pool.close()
+    bad = 0
+    for (what, d, ok), r in zip(docs, res):
+        if (r["outcome"] == "accept") != ok and bad < 3:
+            bad += 1
+            ctx.violation({"what": ("a default edge to a promise of another object type is accepted: " if not ok else
+                                    "a default edge to a promise of the edge's own object type is not accepted: ") + what,
+                           "document": d, "implementation": r})
+    ctx.coverage["edges_across_namespaces"] = {"documents": len(docs), "accepted": sum(1 for r in res if r["outcome"] == "accept")}
+    return len(docs)
+
+
 def run(ctx):
+    edges_across_namespaces(ctx)
     scen_check.scenario_check(
         ctx, owners=OWNERS, n_valid=60, n_mut=260, extra=lambda c, r: settable_family(c, r) + families.guaranteed_family(r), prop_files=PROP_FILES,
         rule="conformant scenarios (half with thread groups, two renderings each), single-fault mutants owned by C07, the guaranteed-ancestry family (5 gate types x 4 x 4 branch shapes incl. diamonds through a shared nested checkpoint), and the settable family: owner action shape (plain / threaded without, with own, with the group's repeated checkpoint) x editor present x 7 operation forms, with an action appending to the owner's edge collection; distinct by abstract scenario",
